@@ -4,6 +4,19 @@ import json, os, sys
 HERE = os.path.dirname(os.path.dirname(os.path.abspath(__file__)))
 
 CHECKS = {
+ "C15": dict(level="proof", design="4.13",
+   technique="interval/ordering abstract interpretation of every instantiation over clang's resolved AST + constexpr static_assert witnesses",
+   text="Decides the property for all ordered pairs of the 11 builtin integer types: each of the 726 instantiated bodies is evaluated with "
+        "operands abstracted to the interval of their type refined by the path's sign tests; a builtin comparison counts only if every implicit or "
+        "explicit conversion before it is value-preserving on the path's interval, and every leaf must agree with the mathematical comparison for "
+        "each feasible ordering (t<u, t==u, t>u). All values are covered by the abstraction, not sampled. constexpr use is discharged by static_asserts.",
+   note="Trusts clang's AST (conversion kinds, resolved callees) on x86-64 LP64 and the ~40-line encoding of integral conversions; extended/128-bit integer types are not instantiated."),
+ "C18": dict(level="proof", design="4.16",
+   technique="generated static_assert witnesses against independent oracles (Python list operations, decltype of a+b+c, std:: traits), discharged by the compiler",
+   text="Every law is a static_assert generated for all type lists up to a bound (quick: length<=3 complete plus samples to 7; thorough: <=5), all "
+        "promote_type packs of 1..2 (quick, plus thinned triples) / 1..3 (thorough) over 15 arithmetic types and 3 std::complex forms, all truth vectors "
+        "up to 3/4 for the logical traits and hand-derived cv tables; the compiler discharges each on the current headers. Exhaustive within those bounds.",
+   note="Trusts clang++ (and g++ in thorough) template instantiation; oracles live in sa/rules/c18.py; lists longer than the bound are not covered."),
  "C19": dict(level="exploration", design="4.17",
    technique="compile matrix + AST ODR lint + link witness + throw/noreturn pairing between exception configurations (static; nothing is executed)",
    text="Decides the property itself over the finite configuration set: every header x {g++, clang++} x standards x {exceptions, -fno-exceptions} "
